@@ -351,7 +351,9 @@ def specLoop (env : Env) : Nat → SpecSt → Toks → Res (SpecSt × Toks)
             specLoop env n { st with specifier := st.specifier ++ [joinStr "::".toList nested],
                                       targs := st.targs ++ targs, typemap := some tm, found := true } ts2
       else if t.typ = .TYPE_SPECIFIER then
-        specLoop env n { st with specifier := st.specifier ++ [t.val] } rest
+        if st.typemap.isSome then
+          .reject s!"type specifier '{String.ofList t.val}' cannot be combined with the type name '{String.ofList (st.specifier.getLastD [])}'"
+        else specLoop env n { st with specifier := st.specifier ++ [t.val], found := true } rest
       else if t.typ = .TYPE_QUALIFIER then
         specLoop env n { st with const := st.const || t.val == "const".toList,
                                   volatile := st.volatile || t.val == "volatile".toList } rest
@@ -459,6 +461,15 @@ def isVoidOnly : List Decl → Bool
   | [.mk sp none _ _ _ _ _] => sp.specifier == ["void".toList]
   | _ => false
 
+/-- `Declaration.get_name(use_attr=False)`: the declarator's name, or the name one level down -/
+def Declarator.shallowName : Declarator → Option Str
+  | .leaf _ n => n
+  | .wrap _ (.leaf _ n) => n
+  | .wrap _ (.wrap _ _) => none
+
+def Decl.shallowName : Decl → Option Str
+  | .mk _ dr _ _ _ _ _ => dr.bind Declarator.shallowName
+
 mutual
 /-- `Parser.declaration` -/
 def declaration (env : Env) : Nat → Toks → Res (Decl × Toks)
@@ -468,7 +479,7 @@ def declaration (env : Env) : Nat → Toks → Res (Decl × Toks)
     let (dr, ts2) ← declarator n ts1
     let (params, fc, ts3) ← (match peekTyp ts2 with
       | some .LPAREN => do
-        let (ps, ts') ← paramList env n (ts2.drop 1)
+        let (ps, ts') ← paramList env n [] (ts2.drop 1)
         let ps := if isVoidOnly ps then [] else ps
         match ts' with
         | t :: rest =>
@@ -485,14 +496,20 @@ def declaration (env : Env) : Nat → Toks → Res (Decl × Toks)
       let (v, ts7) ← initializer ts6
       .ok (.mk sp dr params fc arr attrs (some v), ts7)
     | (false, _) => .ok (.mk sp dr params fc arr attrs none, ts5)
-/-- `Parser.parameter_list` after the `(` -/
-def paramList (env : Env) : Nat → Toks → Res (List Decl × Toks)
-  | 0, _ => .fuel
-  | n+1, ts =>
+/-- `Parser.parameter_list` after the `(`; `names` are the parameter names seen so far
+    (a repeated name is a parse error since the `fix:` commit) -/
+def paramList (env : Env) : Nat → List Str → Toks → Res (List Decl × Toks)
+  | 0, _, _ => .fuel
+  | n+1, names, ts =>
     match peekTyp ts with
     | some .RPAREN => .ok ([], ts.drop 1)
     | _ => do
       let (d, ts1) ← declaration env n ts
+      let names' ← (match d.shallowName with
+        | some nm =>
+          if names.contains nm then (.reject s!"Duplicate parameter name '{String.ofList nm}'" : Res (List Str))
+          else .ok (nm :: names)
+        | none => .ok names)
       match have? .COMMA ts1 with
       | (true, ts2) =>
         match have? .VARARG ts2 with
@@ -501,7 +518,7 @@ def paramList (env : Env) : Nat → Toks → Res (List Decl × Toks)
           match peekTyp ts2 with
           | some .RPAREN => .reject "Expected a parameter after ',', found RPAREN"
           | _ => do
-            let (ds, ts3) ← paramList env n ts2
+            let (ds, ts3) ← paramList env n names' ts2
             .ok (d :: ds, ts3)
       | (false, _) => do
         let (_, ts3) ← mustbe .RPAREN ts1
